@@ -169,6 +169,9 @@ OSAttribute ENVOBJ::getAttribute(CK_ATTRIBUTE_TYPE type)
 			OSAttribute a(s);
 			return a;
 		}
+#ifdef VP_ENV_ATTRMAP
+		// attribute-map valued attribute: heap nodes holding OSAttributes cost ~13M SAT variables per call, so
+		// only units that are about CKA_WRAP_TEMPLATE / CKA_UNWRAP_TEMPLATE enable it
 		if (k == 5)
 		{
 			std::map<CK_ATTRIBUTE_TYPE,OSAttribute> m;
@@ -181,6 +184,7 @@ OSAttribute ENVOBJ::getAttribute(CK_ATTRIBUTE_TYPE type)
 			OSAttribute a(m);
 			return a;
 		}
+#endif
 		CNT(VALUE_READS)++;
 		ByteString bs = otherBytes(o);
 		OSAttribute a(bs);
